@@ -125,7 +125,14 @@ def xsi_exemption(ctx: Ctx) -> None:
     ctx.ob("bind_attrs: unknown-attribute failure requires target_uri(qname) != Namespace.XSI.uri", ok, at=fi, construct="xsi exemption", msg="xsi:* attributes fail under fail_on_unknown_attributes")
     if tests:
         arg = tests[0].ast.left.args[0] if isinstance(tests[0].ast.left, ast.Call) and tests[0].ast.left.args else None
-        loop = [n for n in g.nodes if n.kind == "for" and any("self.attrs.items()" in t for t in value_texts(fi, n, n.ast.iter))]
+        def _over_attrs(n) -> bool:
+            it = n.ast.iter
+            if any("self.attrs.items()" in t for t in value_texts(fi, n, it)):
+                return True
+            # `attrs = self.attrs or {}` ... `attrs.items()`
+            return isinstance(it, ast.Call) and isinstance(it.func, ast.Attribute) and it.func.attr == "items" and "self.attrs" in {unparse(x) for x in leaves_at(fi, n, it.func.value)}
+
+        loop = [n for n in g.nodes if n.kind == "for" and _over_attrs(n)]
         key = unparse(loop[0].ast.target.elts[0]) if loop and isinstance(loop[0].ast.target, ast.Tuple) else None
         ctx.ob("bind_attrs: the exemption tests the attribute's own qualified name", arg is not None and key is not None and key in value_texts(fi, tests[0], arg), at=fi, construct="xsi exemption subject", msg="exemption tests another name")
 
